@@ -507,6 +507,24 @@ def run(ctx):
                 {'function': 'levdown', 'a': vlib.hexv(ag), 'e': ef}, ('levdown', ag.tobytes(), ef), True)
         ctx.count('corr/stepupdown/%s/order%d' % (tag, p))
 
+    # exhaustive small space: every k on the quarter grid for orders 1 and 2 (real), the half grid for order 1, 2 (complex);
+    # includes zero coefficients; the step-up polynomial is exactly representable, so poly2rc gets the exact input
+    import itertools
+    vals_r = [j / 4.0 for j in range(-3, 4)]
+    vals_c = [complex(x, y) / 2.0 for x in (-1, 0, 1) for y in (-1, 0, 1)]
+    small = [np.array(t) for p in (1, 2) for t in itertools.product(vals_r, repeat=p)]
+    small += [np.array(t) for p in (1, 2) for t in itertools.product(vals_c, repeat=p) if any(z.imag for z in t)]
+    if ctx.tier == 'quick':
+        small = [small[i] for i in sorted(rng.choice(len(small), size=48, replace=False))]
+    for k in small:
+        r0 = 2.0; kap = kappa_of(k)
+        _, (a, e) = call(rc2poly, k, r0)
+        _, R = call(rc2ac, k, r0)
+        _, k2 = call(poly2rc, a, e)
+        add('rc2ac_case %s %s %s false %s' % (tolq(1e-10 * kap), czl(k), cz(r0), czl(R)), {'function': 'rc2ac', 'k': vlib.hexv(k), 'r0': r0}, ('rc2ac-small', k.tobytes()), len(k) >= 2)
+        add('poly2rc_case %s %s %s false %s' % (tolq(1e-10 * kap), czl(a), cz(e), czl(k2)), {'function': 'poly2rc', 'a': vlib.hexv(a), 'efinal': float(np.real(e))}, ('poly2rc-small', k.tobytes()), len(k) >= 2)
+        ctx.count('corr/exhaustive-small')
+
     # error branches (exact inputs, no tolerance needed)
     for cplx in (False, True):
         for p in range(1, 6):
